@@ -147,6 +147,13 @@ namespace bluetoe
             return result;
         }
 
+        template < class S >
+        static void sm_pairing_request_yes_no( S& state )
+        {
+            state.wait_for_user_response();
+            state.yes_no_response( Obj.sm_pairing_yes_no() );
+        }
+
         struct meta_type :
             details::pairing_input_capabilty_meta_type,
             link_layer::details::valid_link_layer_option_meta_type {};
